@@ -869,7 +869,7 @@ Section Striping.
     pose proof (Hts t _ Hp) as Hsafe. cbn [Conc.safe] in Hsafe.
     destruct (Hsafe _ _ _ Hi eq_refl) as (a1 & H1 & H2 & H3).
     destruct (f (Conc.shared c)) as [[g' v] es] eqn:Hf. cbn [fst snd] in *.
-    destruct (Conc.settle_safe (view := view) (Inv := Inv) t (k v) H1 H3) as (a2 & K1 & K2 & K3).
+    destruct (@Conc.settle_safe _ _ _ _ _ view Inv t (k v) _ _ _ H1 H3) as (a2 & K1 & K2 & K3).
     destruct (Conc.settle (k v)) as [es' p'] eqn:Hk. cbn [fst snd] in *.
     inversion Hs; subst c'; clear Hs. exists a, a2. cbn [Conc.shared Conc.trace]. split; [exact Hi|]. split.
     - rewrite Conc.tag_app, app_assoc. exact K1.
